@@ -4,7 +4,7 @@ from vlib import common
 GO = dict(module="extras", pkg="transport/udphop", pkgname="udphop",
           files={"zz_verif_c19_test.go": "c19/c19_test.go"}, run="TestVerifC19")
 PARAMS_NAME = "ParamsC19"
-HEADER = ("From Hy Require Import lib.Harness model.C19_PortUnion model.C19_Hop corr.C19_Corr.\n"
+HEADER = ("From Hy Require Import lib.Harness model.C19_PortUnion model.C19_Hop model.C19_Addr corr.C19_Corr.\n"
           "From Coq Require Import ZArith.\nLocal Open Scope N_scope.\n")
 RULE = ("seeded generator: (pu) every string over a 4-letter alphabet up to length 4 (5 letters, length 5 in the thorough tier), grammar-directed port expressions (singles, ranges, reversed, equal, adjacent, overlapping, nested, "
         "0 and 65535, leading zeros, 65536+, long digit strings) and byte-level mutations of them (junk, signs, spaces, doubled/"
@@ -18,16 +18,22 @@ RULE = ("seeded generator: (pu) every string over a 4-letter alphabet up to leng
         "(the reader falls behind until packetQueueSize datagrams sit unread and more arrive on prev / cur and meet the full queue, with or "
         "without a hop in between, then the reader drains the queue - completely or not - and further datagrams arrive on that same socket "
         "and on the other one and must come out of ReadFrom in order; up to four episodes per history, also twice on one socket). "
+        "Server address of every history, and (addr) ResolveUDPHopAddr / addrs() alone: the host part is an IPv4 literal, a bracketed IPv6 "
+        "literal (compressed, full, upper case, unspecified, embedded-IPv4 notation), an IPv4-mapped IPv6 literal, a zone-scoped literal, "
+        "or a host name answered by an in-memory DNS server (A only -> 4-byte IP, AAAA only, both, several AAAA), plus (addr only) the "
+        "empty host, unbracketed / half-bracketed IPv6, names that do not exist, malformed literals, crossed with valid and malformed port "
+        "expressions; every socket write's destination (IP by net.IP.Equal, zone, port) is recorded and judged, on every write of the history. "
         "Non-trivial = expression with >= 2 items or rejected; history with >= 2 successful hops or a failed listen. Distinct = distinct JSON case.")
 ASSUMPTIONS = [
-    "net.ResolveIPAddr / net.SplitHostPort (host part of the hop address) are not modelled; the IP is an opaque value copied into every address",
+    "net.ResolveIPAddr / net.SplitHostPort (host part of the hop address) are not modelled: their results are inputs (any IP bytes of any family, any zone, or failure); the model copies the resolved IP into every address and, like the code, drops the zone (UDPHopAddr has no zone field, so a zone-scoped server address loses its zone on the clean tree as well)",
+    "net.IP.Equal is transcribed (ip_equal) and used to compare recorded destinations with the model's: 4-byte and 16-byte renderings of one IPv4 address are one destination",
     "the real timer and scheduler: hop instants and interleavings are inputs of the LTS (every interleaving of the code's locked sections and channel operations is covered by the theorems; the harness samples some)",
     "sockets returned by ListenUDPFunc behave like net.PacketConn: ReadFrom fails once the socket is closed, and reports a permanent (non-timeout) error only then (hypothesis sockets_ok of C19_receiver_never_stops: a recvLoop returns on ANY permanent error of its socket)",
     "a timeout error that meets a FULL receive queue parks its receiver in a blocking send; the model defers that send and the generator keeps read timeouts out of overflow episodes",
     "a socket whose Close() reports an error is closed nevertheless (as with close(2)); which sockets report one is an arbitrary input of the LTS",
 ]
 TRUSTED = ["modelled rather than verified: extras/utils/portunion.go, extras/transport/udphop/addr.go and conn.go (hand transcription in "
-           "coq/model/C19_PortUnion.v, C19_Hop.v and C19_Recv.v (recvLoop goroutines); sort.Slice, strings.Split, strconv.ParseUint, rand.Intn, sync.RWMutex and channel "
+           "coq/model/C19_PortUnion.v, C19_Hop.v, C19_Recv.v (recvLoop goroutines) and C19_Addr.v (ResolveUDPHopAddr, addrs(), destinations); sort.Slice, strings.Split, strconv.ParseUint, rand.Intn, sync.RWMutex and channel "
            "semantics are modelled from their documentation)"]
 PER_SHARD = 125
 EXTRA_TARGETS = ["corr/C19_Corr.vo"]
@@ -163,6 +169,128 @@ def gen_ival(rng, n):
     return cases
 
 
+# ------------------------------------------------------------------ server addresses
+#
+# A host form is (form, hp, host, dns, exp, experr): hp = the host part as written in the hop address (brackets included), host = the
+# bare host, dns = the records of the in-memory DNS server, exp = hex of the address(es) the host stands for, computed HERE with
+# python's ipaddress module (independently of Go's parser and resolver), experr = ok | split | resolve | ref.
+
+def _ipx(s):
+    import ipaddress
+    return ipaddress.ip_address(s).packed.hex()
+
+
+def _rand_v4(rng):
+    return rng.choice(["127.0.0.1", "10.%d.%d.%d" % (rng.randrange(256), rng.randrange(256), rng.randrange(1, 255)), "192.0.2.%d" % rng.randrange(1, 255),
+                       "198.51.100.7", "203.0.113.250", "255.255.255.255", "0.0.0.0", "1.2.3.4", "100.64.0.1", "169.254.1.1", "224.0.0.251"])
+
+
+def _rand_v6(rng):
+    z = rng.random()
+    if z < 0.35:
+        return rng.choice(["::1", "2001:db8::1", "2001:db8::", "fe80::1", "::", "2001:db8:1:2:3:4:5:6", "64:ff9b::1.2.3.4", "2001:DB8::A",
+                           "ff02::1", "fd00::ffff:1:2", "::2", "1::", "2001:db8:0:0:1:0:0:1", "::fffe:10.1.2.3", "0:0:0:0:0:0:0:1"])
+    groups = ["%x" % rng.randrange(65536) for _ in range(8)]
+    if z < 0.5:
+        return ":".join(groups)
+    # one compressed run of zero groups
+    a = rng.randrange(0, 7)
+    b = rng.randrange(a + 1, 8)
+    left, right = groups[:a], groups[b + 1:]
+    if a == 0 and rng.random() < 0.5:
+        left = []
+    return ":".join(left) + "::" + ":".join(right)
+
+
+def host_form(rng, hop):
+    """hop=True: only hosts a conn can be built from; hop=False: also hosts that must be rejected / the empty host."""
+    z = rng.random()
+    if not hop and z < 0.22:
+        bad = rng.choice([
+            ("bad:unbracketed6", "::1", "::1", None, [], "split"),
+            ("bad:unbracketed6", "2001:db8::1", "2001:db8::1", None, [], "split"),
+            ("bad:half-bracket", "[::1", "", None, [], "split"),
+            ("bad:half-bracket", "::1]", "", None, [], "split"),
+            ("bad:junk-after-bracket", "[::1]x", "", None, [], "split"),
+            ("bad:short-v4", "1.2.3", "1.2.3", None, [], "resolve"),
+            ("bad:leading-zero-v4", "010.1.1.1", "010.1.1.1", None, [], "resolve"),
+            ("bad:v4-overflow", "256.1.1.1", "256.1.1.1", None, [], "resolve"),
+            ("bad:no-such-name", "nx.hop.test.", "nx.hop.test.", {"v6.hop.test.": [[], ["2001:db8::77"]]}, [], "resolve"),
+            ("bad:no-records", "none.hop.test.", "none.hop.test.", {"none.hop.test.": [[], []]}, [], "resolve"),
+            ("bad:zone-on-v4", "1.2.3.4%lo", "1.2.3.4%lo", None, [], "resolve"),
+            ("bad:empty-zone", "[::1%]", "::1%", None, [], "ref"),
+            ("bad:too-many-groups", "[1:2:3:4:5:6:7:8:9]", "1:2:3:4:5:6:7:8:9", None, [], "resolve"),
+            ("bad:bracketed-name", "[v6.hop.test.]", "v6.hop.test.", {"v6.hop.test.": [[], ["2001:db8::77"]]}, ["20010db8000000000000000000000077"], "ref"),
+            ("empty", "", "", None, [], "ok"),
+            ("empty", "[]", "", None, [], "ok"),
+            ("v4:bracketed", "[192.0.2.9]", "192.0.2.9", None, [_ipx("192.0.2.9")], "ok"),
+        ])
+        return bad
+    if z < 0.40:
+        a = _rand_v6(rng)
+        return ("v6", "[" + a + "]", a, None, [_ipx(a)], "ok")
+    if z < 0.62:
+        a = _rand_v4(rng)
+        return ("v4", a, a, None, [_ipx(a)], "ok")
+    if z < 0.72:
+        a = _rand_v4(rng)
+        w = rng.choice(["::ffff:" + a, "::FFFF:" + a, "0:0:0:0:0:ffff:" + a, "::ffff:%x:%x" % (int(_ipx(a)[:4], 16), int(_ipx(a)[4:], 16))])
+        return ("v4in6", "[" + w + "]", w, None, [_ipx(a)], "ok")
+    if z < 0.80:
+        a = rng.choice(["fe80::1", "fe80::%x:%x" % (rng.randrange(65536), rng.randrange(65536)), "ff02::1", "fe80::dead:beef"])
+        zone = rng.choice(["lo", "eth0", "7", "en0.100", "wlan-1"])
+        return ("zone", "[" + a + "%" + zone + "]", a + "%" + zone, None, [_ipx(a)], "ok")
+    # host names: the in-memory DNS server answers (never with an unspecified address: Go's resolver turns an AAAA answer "::"
+    # into 0.0.0.0, which is the library's business, not the hop address's)
+    def spec(f):
+        while True:
+            a = f(rng)
+            if int(_ipx(a), 16) != 0:
+                return a
+    a4 = spec(_rand_v4)
+    a6 = spec(_rand_v6)
+    b6 = spec(_rand_v6)
+    kind = rng.choice(["dns:aaaa", "dns:aaaa", "dns:aaaa", "dns:a", "dns:both", "dns:aaaa2", "dns:nodot", "dns:upper"])
+    name = rng.choice(["srv", "hop", "h%d" % rng.randrange(100), "a-b"]) + "." + rng.choice(["hop.test.", "example.hop.test.", "v.test."])
+    if kind == "dns:a":
+        return (kind, name, name, {name: [[a4], []]}, [_ipx(a4)], "ok")
+    if kind == "dns:both":
+        # ResolveIPAddr("ip", name) prefers an IPv4 address when there is one; either record is the server
+        return (kind, name, name, {name: [[a4], [a6]]}, [_ipx(a4), _ipx(a6)], "ok")
+    if kind == "dns:aaaa2":
+        return (kind, name, name, {name: [[], [a6, b6]]}, [_ipx(a6), _ipx(b6)], "ok")
+    if kind == "dns:nodot":
+        return (kind, name[:-1], name[:-1], {name: [[], [a6]]}, [_ipx(a6)], "ok")
+    if kind == "dns:upper":
+        return (kind, name.upper(), name.upper(), {name: [[], [a6]]}, [_ipx(a6)], "ok")
+    return (kind, name, name, {name: [[], [a6]]}, [_ipx(a6)], "ok")
+
+
+def set_host(case, hf):
+    form, hp, host, dns, exp, experr = hf
+    case.update({"form": form, "hp": hp, "host": host, "exp": exp, "experr": experr})
+    if dns is not None:
+        case["dns"] = dns
+    return case
+
+
+ADDR_PORTS = ["20000-20002,443", "443", "1000-1009", "0,65535", "5,3-4,7-6,100-90", "65530-65535,0-3", "20000-20010,20005-20020",
+              "", "1-2-3", "65536", "443,", "-", "0x10", " 443", "1,,2"]
+
+
+def gen_addr(rng, n):
+    cases = []
+    for i in range(n):
+        hf = host_form(rng, hop=False)
+        z = rng.random()
+        ports = rng.choice(ADDR_PORTS[:7]) if z < 0.6 else rng.choice(ADDR_PORTS[7:]) if z < 0.75 else render(rng, gen_items(rng))
+        cases.append(set_host({"k": "addr", "ports": ports}, hf))
+    # the whole port range behind an IPv6 server and behind a name
+    cases.append(set_host({"k": "addr", "ports": "all"}, ("v6", "[2001:db8::1]", "2001:db8::1", None, [_ipx("2001:db8::1")], "ok")))
+    cases.append(set_host({"k": "addr", "ports": "*"}, ("dns:aaaa", "all.hop.test.", "all.hop.test.", {"all.hop.test.": [[], ["2001:db8::5"]]}, [_ipx("2001:db8::5")], "ok")))
+    return cases
+
+
 QUEUE = 1024   # packetQueueSize (only sizes the bursts: a wrong value makes the overflow class vacuous, see klass "ovf")
 
 HOP_PORTS = ["20000-20002,443", "443", "1000-1009", "0,65535", "5,3-4,7-6,100-90", "65530-65535,0-3"]
@@ -292,9 +420,10 @@ def gen_hop_one(rng, big=False, full=False, ovf=False):
             "rand": [i for i in range(nid) if rng.random() < 0.5]}[plan]
     ps = rng.choice([0, 0, 0.2, 0.6])
     serr = [i for i in range(80) if rng.random() < ps]
-    return {"k": "hop", "ports": ports, "min": mn * 10**6, "max": mx * 10**6, "seed": rng.randrange(2**31), "fail": fail,
+    case = {"k": "hop", "ports": ports, "min": mn * 10**6, "max": mx * 10**6, "seed": rng.randrange(2**31), "fail": fail,
             "ops": ops, "end": end, "drain": full or ovf or rng.random() < 0.6, "workers": workers + 3,
             "cerr": cerr, "serr": serr, "blk": rng.random() < 0.5}
+    return set_host(case, host_form(rng, hop=True))
 
 
 def gen_pu_exhaustive(alphabet, maxlen):
@@ -317,6 +446,7 @@ def gen(rng, tier):
     cases += gen_norm(rng, 200 * scale)
     cases += gen_ival(rng, 40 * scale)
     cases.append({"k": "pu", "s": "0-65535".encode().hex(), "probe": [0, 65535]})
+    cases += gen_addr(rng, 140 * scale)
     hops = [gen_hop_one(rng) for _ in range(90 * scale)]
     hops += [gen_hop_one(rng, big=True) for _ in range(3 * scale)]
     hops += [gen_hop_one(rng, full=True) for _ in range(2 * scale)]
@@ -363,8 +493,13 @@ def zlit(z):
     return "(%d)%%Z" % z
 
 
+def dtab_term(o):
+    return "[" + ";".join("(%s,%s)" % (common.coq_bytes(bytes.fromhex(a)), common.coq_bytes(bytes.fromhex(z))) for a, z in (o.get("dtab") or [])) + "]"
+
+
 def ev_terms(c, o):
     ports = port_list(c["ports"])
+    ndt = len(o.get("dtab") or [])
     pidx = {p: i for i, p in enumerate(ports)}
     log = o["log"]
 
@@ -392,7 +527,8 @@ def ev_terms(c, o):
             terms.append("ES %d%%nat %s %s" % (e[1], KINDS[e[2]], zlit(e[3])))
         elif k == "W":
             port = e[2] if (e[4] == 1 and 0 <= e[2] <= 65535) else 99999
-            terms.append("EW %d%%nat %d %d" % (e[1], port, max(e[3], 0)))
+            di = e[5] if (len(e) > 5 and 0 <= e[5] < ndt) else ndt      # no UDP destination at all: an index outside the table
+            terms.append("EW %d%%nat %d %d %d%%nat" % (e[1], port, max(e[3], 0), di))
         elif k == "A":
             terms.append("EA %d%%nat %d" % (e[1], e[2]))
         elif k == "T":
@@ -472,7 +608,7 @@ def compress(terms):
 
 def to_coq(c, o):
     k = c["k"]
-    if o.get("skipped"):
+    if o.get("skipped") or o.get("noaddr"):
         return None
     if o.get("panic"):
         # the models never panic on these inputs: force a mismatch
@@ -491,8 +627,16 @@ def to_coq(c, o):
         census = "[" + ";".join("(%s,%d)" % ("true" if a else "false", b) for a, b in o["census"]) + "]"
         # the sockets scripted to report an error from Close (only those that came to exist matter)
         cerrs = "[" + ";".join("%d%%nat" % k for k in c.get("cerr", []) if k < len(o["census"])) + "]"
-        return "CHop %s %s %d%%nat %s [%s] %s" % (common.coq_bytes(c["ports"].encode()), "true" if ctor_ok else "false", r0, cerrs,
-                                                 ";\n  ".join(terms), census)
+        return "CHop %s %s %s %s %d%%nat %s [%s] %s" % (common.coq_bytes(c["ports"].encode()), common.coq_bytes(bytes.fromhex(o.get("rip", ""))), dtab_term(o),
+                                                       "true" if ctor_ok else "false", r0, cerrs, ";\n  ".join(terms), census)
+    if k == "addr":
+        errk = {"": 0, "split": 1, "resolve": 2, "port": 3}.get(o.get("errk"), 4)
+        tf = lambda b: "true" if b else "false"
+        na = o["na"] if o["na"] >= 0 else 99999999
+        return "CAddr %s %s %s %s %s %d %s %d (%d,%d) %d (%d,%d) %s" % (
+            common.coq_bytes(c["ports"].encode()), tf(o["refk"] != "split"), tf(o["refk"] == ""),
+            common.coq_bytes(bytes.fromhex(o["rip"])), common.coq_bytes(bytes.fromhex(o["rzone"])), errk,
+            common.coq_bytes(bytes.fromhex(o["ip"])), o["np"], o["pa"], o["pb"], na, o["aa"], o["ab"], dtab_term(o))
     return None
 
 
@@ -563,13 +707,22 @@ def klass(c, o):
         return "norm:%d" % min(4, len(o.get("norm") or []))
     if k == "ival":
         return "ival:" + ("rejected" if o.get("err") else "default" if c["min"] == 0 else "fixed" if c["min"] == c["max"] else "jitter")
+    if o.get("premise"):
+        return "%s:premise-broken" % k          # the reference does not see the host as the generator wrote it (see run())
+    if k == "addr":
+        return "addr:%s:%s" % (c.get("form"), o.get("errk") or "ok")
+    if o.get("noaddr"):
+        return "hop:no-address"
     if o.get("ctor_err"):
         return "hop:ctor-failed"
     okh, failed, ap = hop_features(o)
     ep, late = ovf_features(c, o)
     ovf = "" if ep == 0 else ":ovf%s-late%s" % ("1" if ep == 1 else "+", "0" if late == 0 else "+")
-    return "hop:hops%s:fail%s:prevarr%s:closefault-%s%s" % ("<2" if okh < 2 else "2-5" if okh <= 5 else ">5", "0" if failed == 0 else "+",
-                                                          "0" if ap == 0 else "+", close_faults(o), ovf)
+    fam = {0: "nil", 8: "ip4", 32: "ip6"}.get(len(o.get("rip") or ""), "?")
+    if fam == "ip6" and (o.get("rip") or "").startswith("00000000000000000000ffff"):
+        fam = "ip4"                               # an IPv4 server rendered in 16 bytes
+    return "hop:%s:hops%s:fail%s:prevarr%s:closefault-%s%s" % (fam, "<2" if okh < 2 else "2-5" if okh <= 5 else ">5", "0" if failed == 0 else "+",
+                                                             "0" if ap == 0 else "+", close_faults(o), ovf)
 
 
 def nontrivial(c, o):
@@ -580,6 +733,8 @@ def nontrivial(c, o):
         return len(c["ranges"]) >= 2
     if k == "ival":
         return True
+    if k == "addr":
+        return c.get("form") != "v4"
     okh, failed, ap = hop_features(o)
     return okh >= 2 or failed > 0
 
@@ -666,7 +821,17 @@ def _crashsafe(orig, force_race):
 def run(ctx):
     import sys
     orig = common.run_go_cases
-    common.run_go_cases = _crashsafe(orig, ctx.tier == "thorough")
+    inner = _crashsafe(orig, ctx.tier == "thorough")
+
+    def counting(ctx, gospec, cases, **kw):
+        res = inner(ctx, gospec, cases, **kw)
+        n = sum(1 for o in (res[1] or []) if o and o.get("premise"))
+        if n:
+            # not a verdict on the code: the harness's reference (net.SplitHostPort + net.ResolveIPAddr under the in-memory DNS
+            # server) does not see the host part as the generator wrote it down; those cases are judged against the reference only
+            ctx.say("NOTE: %d case(s) with a broken host premise (input class *:premise-broken)" % n)
+        return res
+    common.run_go_cases = counting
     try:
         return common.run_case_check(ctx, sys.modules[__name__])
     finally:
